@@ -3,6 +3,7 @@ package main
 import (
 	"bytes"
 	"encoding/json"
+	"errors"
 	"fmt"
 	"math/rand"
 	"os"
@@ -466,6 +467,9 @@ func c02Stress(seed int64, tier string) *c02Result {
 		if !col.failed() {
 			c02ManyInFlight(col, tier)
 		}
+		if !col.failed() {
+			c02OverlapSweep(col, seed, tier)
+		}
 	}
 	for k := range col.seq {
 		res.Distinct = append(res.Distinct, k)
@@ -660,13 +664,30 @@ func c02LostUpdate(cacheOn bool) (aGot, late string, err error) {
 	}
 	l.block = false
 	l.release <- struct{}{}
-	a := <-done
+	var a res
+	select {
+	case a = <-done:
+	case <-time.After(c02StuckAfter):
+		return "", "", fmt.Errorf("%w: Load(\"t\") did not return within %v after the loader let it go on", errC02Stuck, c02StuckAfter)
+	}
 	if a.err != nil {
 		return "", "", a.err
 	}
-	late, err = e.Render("t", nil)
-	return a.out, late, err
+	// the late render, with a time limit: whatever the overlap left behind on the engine (a lock, say) shows here
+	lateDone := make(chan res, 1)
+	go func() {
+		o, err := e.Render("t", nil)
+		lateDone <- res{o, err}
+	}()
+	select {
+	case r := <-lateDone:
+		return a.out, r.out, r.err
+	case <-time.After(c02StuckAfter):
+		return a.out, "", fmt.Errorf("%w: Render(\"t\") made after both overlapping calls had returned did not return within %v", errC02Stuck, c02StuckAfter)
+	}
 }
+
+var errC02Stuck = errors.New("call never returned")
 
 func c02LostUpdateCheck(e *Env) error {
 	r := e.Rep
@@ -674,6 +695,14 @@ func c02LostUpdateCheck(e *Env) error {
 		aGot, late, err := c02LostUpdate(cacheOn)
 		r.Seen(fmt.Sprintf("lost-update|%v", cacheOn), true)
 		r.Hit("lost-update-replay")
+		if errors.Is(err, errC02Stuck) {
+			r.Violate(Violation{Key: "engine-stuck-after-overlap",
+				What:   fmt.Sprintf("cache=%v: A: Load(\"t\") held inside a user Loader.Load; B: RegisterString(\"t\") returns; A is let go on: %v. Run one after another, in either order, these calls return at once", cacheOn, err),
+				Broken: "C02 (implementation-only oracle: every call returns, as it does when the calls run one after another)",
+				Replay: map[string]any{"kind": "lost-update", "cache": cacheOn, "A_load_rendered": aGot, "error": err.Error(),
+					"schedule": "A: engine.Load(\"t\") blocks inside a user Loader.Load (after its cache miss); B: engine.RegisterString(\"t\", \"REGISTERED-V2\") returns; A is released and returns; then engine.Render(\"t\")"}})
+			continue
+		}
 		if err != nil {
 			r.Note("lost-update replay could not run: " + err.Error())
 			continue
@@ -740,6 +769,7 @@ func runC02(e *Env) error {
 		"non-trivial = expected output contains the goroutine's own marker; distinct by (config, call kind, template, goroutine). " +
 		"Regression jobs first (concurrent first loads through the file-system loader, relative names from different directories, concurrent parses). " +
 		"Plus: hundreds (thorough: thousands) of calls stopped by user code inside the same nested templates at the same time, further calls made meanwhile (c02_inflight.go). " +
+		"Plus: forced overlaps around the loaders — one or two calls held inside a user Loader (before / after the read, inside GetModifiedTime; cold, warm and changed cache entries; every route, also nested through include / extends / import) while renders and registrations of the same and of other names complete, then every route once more with a time limit; results compared with every admissible serial order on twin engines (c02_overlap.go). " +
 		"Run in a child of this binary and, when VERIF_RACE_BIN is set, in the -race build. Plus the deterministic Load/RegisterString lost-update replay (vs model op conc_sem)."
 	if err := c02LostUpdateCheck(e); err != nil {
 		return err
